@@ -23,6 +23,8 @@ func main() {
 		drv.Main("codec", runCodec)
 	case "hostile":
 		drv.Main("hostile", runHostile)
+	case "bombchild": // internal: one hostile input from stdin, observed in this (expendable) process
+		runBombChild()
 	default:
 		fmt.Fprintln(os.Stderr, "unknown driver:", os.Args[1])
 		os.Exit(2)
